@@ -457,8 +457,9 @@ func forgeForeignBlocks(rng *rand.Rand, out *Out, chainD []*nom.DetailedMomentum
 	return res, fg.r, 0, nil
 }
 
-// PENDING (reported, see known_findings.d / design.d/C02.md): chain/account_pool.go canRollback looks up the block at
-// height 0 for a competing version of an account's FIRST block and answers "missing previous"
+// competing versions of an account's FIRST block are part of the family: /repo 417e0a5 fixed chain/account_pool.go
+// canRollback, which looked up the block at height 0 for them and answered "missing previous" (known_findings.d/C02.json,
+// design.d/C02.md); true = leave them out (only for experiments on older trees)
 const skipFirstBlock = false
 
 const (
